@@ -130,6 +130,8 @@ static enum websocket_callback_return private_decompress(struct websocket *s, ui
 	uint8_t *in = malloc(length + 4);
 	if (in == NULL) {
 		log_err("inflate in error: malloc");
+		strm->avail_in = 0;
+		strm->next_in = Z_NULL;
 		return WS_ERROR;
 	}
 	memcpy(in, msg, length);
@@ -189,6 +191,9 @@ error:
 	free(in);
 	free(*free_ptr);
 	*free_ptr = NULL;
+	/* avail_in != 0 means "a fragmented message is being collected in next_in" to reassemble() */
+	strm->avail_in = 0;
+	strm->next_in = Z_NULL;
 	return WS_ERROR;
 }
 
